@@ -136,3 +136,11 @@ package cmd
 //@   invariant order: forall i :: 0 <= i && i < iter && keptInRange(points[i].Time, from, until)
 //@                 ==> 0 <= fcount(row(points), points.off, i, from, until) && fcount(row(points), points.off, i, from, until) < len(points2)
 //@                     && points2[fcount(row(points), points.off, i, from, until)] == points[i]
+
+// ---------------------------------------------------------------- commands fail loudly (C16)
+
+//@ func withTextOutWriter
+//@   props C16
+//@   modifies ghost(nopen, 0), ghost(nlocked, 0)
+//@   ensures loud: result == nil ==> cbran(f) && cbret(f) == nil
+//@   ensures propagated: cbran(f) && cbret(f) != nil ==> result != nil
